@@ -95,6 +95,8 @@ type M struct {
 	AllEnds      []string
 	AllFlows     []string
 	AllLandmarks []string
+	// AllErrors accumulates the error keys ("xor:<id>", "inc:<id>", "task:<id>").
+	AllErrors []string
 	// groups: event-based gateway group id -> member tokens
 	groups  map[int][]*Token
 	parSeen map[string]map[int]bool
@@ -215,6 +217,7 @@ func (m *M) finish() Obs {
 	m.AllEnds = append(m.AllEnds, o.Ends...)
 	m.AllFlows = append(m.AllFlows, o.Flows...)
 	m.AllLandmarks = append(m.AllLandmarks, o.Landmarks...)
+	m.AllErrors = append(m.AllErrors, o.Errors...)
 	m.obs = nil
 	return o
 }
